@@ -151,9 +151,8 @@ def round_trip(obj, huge, role='top', parser_cls=None, use_wrappers=False):
             exact.value = exact.value[0]
     else:
         exact = lib.call(cls.parse_exact_size, data)
-    if exact.kind == 'leak':
-        return 'reparse-leaks', [], data          # exception types are judged by C02
     if not exact.ok:
+        # a refusal of its own composed bytes violates C01 whatever the exception type (the type is C02's matter)
         findings.append(Finding('reparse-raises:%s/%s' % (type(exact.exc).__name__, name), {
             'error': repr(exact.exc)[:200], 'composed': data.hex()[:120], 'role': role}))
         return 'reparse-raises', findings, data
@@ -171,8 +170,6 @@ def round_trip(obj, huge, role='top', parser_cls=None, use_wrappers=False):
     # through the variant wrappers that dispatch to this class (generated objects of non-fallback classes only)
     for wrapper in (wrappers_of(cls) if use_wrappers and name not in FALLBACK_CLASSES and not terminator else ()):
         wrapped = lib.call(wrapper.parse_exact_size, data)
-        if wrapped.kind == 'leak':
-            continue
         if not wrapped.ok:
             findings.append(Finding('wrapper-raises:%s/%s' % (type(wrapped.exc).__name__, _short(wrapper)), {
                 'member': name, 'error': repr(wrapped.exc)[:160], 'composed': data.hex()[:120]}))
